@@ -387,7 +387,10 @@ def impl(case):
     elif k == "both_forms":
         smp = smp or ["s0", "s1"]
         rep_smp = [x for s_ in smp for x in (sopt, s_)]
+        # the file names the same samples, or (a fixed share) is empty / holds one blank line: both forms were given all the same
         file_smp = [sfile, write_list(o / "smp.txt", smp)]
+        if case["seed"] % 4 == 1:
+            open(o / "smp.txt", "w").write("" if case["seed"] % 8 == 1 else "\n")
         # the two forms in either order on the command line, and split around other options
         both = {0: [*rep_smp, *file_smp], 1: [*file_smp, *rep_smp], 2: [*rep_smp[:2], *file_smp, *rep_smp[2:]]}[case["seed"] % 3]
         res["cli_rep"] = run_cli(["transform", *both, "-o", o / "a.vcf", gf, d / "h.hap"])
